@@ -705,6 +705,34 @@ func init() {
 			e.pools[p] = append(e.pools[p], a[1])
 			return nil, true
 		},
+		// sync.Map: an interpreter map kept beside the heap, keyed by the receiver; an insert or overwrite on a
+		// sync.Map that lives in package-level state is a store to that state (vfreeze)
+		"(*sync.Map).Load": func(e *Exec, a []Value) (Value, bool) {
+			m := e.syncMapOf(a[0])
+			if i := e.mapFind(m, a[1]); i >= 0 {
+				return Tuple{m.Vals[i], Bool{C: true}}, true
+			}
+			return Tuple{Iface{}, Bool{C: false}}, true
+		},
+		"(*sync.Map).Store": func(e *Exec, a []Value) (Value, bool) {
+			e.syncMapStore(a[0], a[1], a[2])
+			return nil, true
+		},
+		"(*sync.Map).LoadOrStore": func(e *Exec, a []Value) (Value, bool) {
+			m := e.syncMapOf(a[0])
+			if i := e.mapFind(m, a[1]); i >= 0 {
+				return Tuple{m.Vals[i], Bool{C: true}}, true
+			}
+			e.syncMapStore(a[0], a[1], a[2])
+			return Tuple{a[2], Bool{C: false}}, true
+		},
+		"(*sync.Map).Delete": func(e *Exec, a []Value) (Value, bool) {
+			if e.checkFrz && e.frozen[a[0].(*Value)] {
+				e.check(Bool{C: false}, "assert", "store to package-level state", "delete from a sync.Map reachable from a package-level variable")
+			}
+			e.mapDelete(e.syncMapOf(a[0]), a[1])
+			return nil, true
+		},
 		"log.Printf":  noop,
 		"log.Println": noop,
 		"log.Print":   noop,
